@@ -8,6 +8,9 @@ R2 == {"b"}
 T3 == {"a1", "a2", "b"}
 D3 == [t \in T3 |-> IF t = "b" THEN {"a1", "a2"} ELSE {}]
 R3 == {"b"}
+NoFaulty == {}
+Fb == {"b"}
+Fa == {"a"}
 M2 == {"m1", "m2"}
 M3 == {"m1", "m2", "m3"}
 =============================================================================
